@@ -83,6 +83,11 @@ def run(ck, rng, tier):
             step = [-2.0] + [float(rng.choice((3, 4, 10)))] * (dim - 1)
             iters = (10, 4000)[c % 2]
             ck.count("nm exact tie between the reflected and the worst vertex")
+        if c == 8:
+            # the reflected point has EXACTLY the value of the best vertex (neither better nor worse than it)
+            A = np.array([[2.0, 0.5], [0.5, 1.0]]); xmin = np.array([1.0, -2.0]); b = -2 * A @ xmin; dim = 2
+            x0, step, iters = [3.0, 0.0], [2.0, 2.0], 4000
+            ck.count("nm reflected value equal to the best value")
         if c in (4, 5, 6, 7):
             A = np.array([[2.0, 0.5], [0.5, 1.0]]); xmin = np.array([1.0, -2.0]); b = -2 * A @ xmin; dim = 2
             if c == 4:      # all three vertices of the start simplex carry exactly the same value (f = 8)
